@@ -34,7 +34,7 @@ var codecValues = []string{`null`, `true`, `false`, `0`, `-1.5e3`, `12`, `"s"`, 
 
 func wsVariant(r *gen.R, s string) string {
 	// surrounding whitespace and whitespace after separators (outside of strings only at the ends and after , and :)
-	pre := r.Pick([]string{"", " ", "\n\t", "  "})
+	pre := r.Pick([]string{"", " ", "\n\t", "  ", "\r", "\r\n", " \r "})
 	post := r.Pick([]string{"", " ", "\n"})
 	return pre + s + post
 }
